@@ -75,10 +75,13 @@ def obligations(tier, seed):
         o2["params"] = [[n, lo, hi] if n != "pa1" else [n, 3, 3] for n, lo, hi in o2["params"]] + [["k", 0, 6]]
         obs.append(o2)
     for ob in profiles.p_cost(thorough, timeout=900 if thorough else 150):
-        if "fac=0" in ob["name"]:
-            pr = [[n, lo, hi] if n not in ("pa0", "pa1") else [n, 0, 4] for n, lo, hi in ob["params"]]
-            pr = [[n, lo, min(hi, 2)] if n in ("c0", "c1", "w0", "w1") else [n, lo, hi] for n, lo, hi in pr]
-            obs.append(dict(ob, harness="sim_then_remove", name="remove/" + ob["name"], params=pr, pre="pa0 != pa1", engine="zsym"))
+        # (with and without a workplace: every container edits its own cost list; the list is given in either order)
+        pr = [[n, lo, hi] if n not in ("pa0", "pa1") else [n, 0, 4] for n, lo, hi in ob["params"]]
+        pr = [[n, lo, min(hi, 2)] if n in ("c0", "c1", "w0", "w1") else [n, lo, hi] for n, lo, hi in pr]
+        if "fac=0" not in ob["name"]:
+            fixed = {"cf": (1, 2), "fa0": (-1, -1), "a0": (-1, 0), "c1": (0, 1)}
+            pr = [[n, fixed[n][0], fixed[n][1]] if n in fixed else [n, lo, hi] for n, lo, hi in pr]
+        obs.append(dict(ob, harness="sim_then_remove", name="remove/" + ob["name"], params=pr, pre="pa0 != pa1", engine="zsym"))
     # unit_time = 2: the clock advances by two per step, the logs still have one entry per step
     for ob in profiles.p_cost(thorough, timeout=900 if thorough else 150):
         if "fac=0" not in ob["name"]:
